@@ -6,8 +6,8 @@ import itertools
 from typing import Any, Optional
 
 MISSING = "<absent key>"
-PYTYPES = {"int": int, "str": str, "any": Any}
-ANN = {"int": "int", "str": "str", "any": "Any"}
+PYTYPES = {"int": int, "str": str, "any": Any, "dec": __import__("decimal").Decimal}
+ANN = {"int": "int", "str": "str", "any": "Any", "dec": "Decimal"}
 _counter = itertools.count()
 
 
@@ -43,7 +43,7 @@ class Kind:
         import sqlalchemy
         import sqlalchemy.orm
         ns: dict = {"Any": Any, "typing": typing, "dataclasses": dataclasses, "attrs": attrs, "pydantic": pydantic, "sa": sqlalchemy,
-                    "orm": sqlalchemy.orm, "ctor_log": ctor_log, "N": next(_counter)}
+                    "orm": sqlalchemy.orm, "ctor_log": ctor_log, "N": next(_counter), "Decimal": PYTYPES["dec"], "fresh_list": __import__("vf.layoutreplay", fromlist=["fresh_list"]).fresh_list}
         exec(self.source(shape, names, ctor_log is not None), ns)  # noqa: S102
         return ns["Model"]
 
@@ -201,6 +201,8 @@ class SqlalchemyKind(Kind):
     def supports(self, shape, sch):
         if sch.get("aslist"):
             return "sqlalchemy: the order of mapped fields is not registered, as_list=True is not supported (documented)"
+        if any(f["ty"] == "dec" for f in shape):
+            return "the harness declares no Decimal columns"
         if shape[0]["ty"] != "int" or not shape[0]["req"]:
             return "the harness uses the first field as the primary key"
         return None
@@ -293,10 +295,12 @@ class AttrsTakesSelfKind(AttrsKind):
 
     def source(self, shape, names, with_log=False):
         lines = []
+        first = True       # the FIRST defaulted field only: the later ones have plain defaults and stay ordinary parameters behind it
         for f, (n, a, req, d) in zip(shape, self._fields(shape, names)):
-            if req or f.get("dir", "io") == "out":
+            if req or f.get("dir", "io") == "out" or not first:
                 lines.append(f"    {n}: {a}\n" if req else f"    {n}: {a} = {d!r}\n")
             else:
+                first = False
                 fac = names.factory(f["ty"])
                 val = f"{fac.__name__}()" if fac else repr(names.default(f["ty"]))
                 lines.append(f"    {n}: {a} = attrs.Factory(lambda self: {val}, takes_self=True)\n")
